@@ -190,10 +190,15 @@ def _detached_at(fn, call):
         for s in stmts:
             if any(x is call for x in ast.walk(s)):
                 if isinstance(s, ast.If):
-                    t = norm(s.test)
+                    t_, neg = s.test, False
+                    while isinstance(t_, ast.UnaryOp) and isinstance(t_.op, ast.Not):
+                        t_, neg = t_.operand, not neg
+                    t = norm(t_)
                     in_body = any(x is call for b in s.body for x in ast.walk(b))
                     is_none = ("parent is None" in t or "_parent is None" in t)
                     not_none = ("parent is not None" in t or "_parent is not None" in t)
+                    if neg:
+                        is_none, not_none = not_none, is_none
                     if in_body:
                         return find(s.body, detached or is_none)
                     return find(s.orelse, detached or not_none)
